@@ -403,6 +403,10 @@ func (p *proxyConn) writeErrorResponse(req *http.Request, err error) error {
 	res := maybeConnectErrorResponse(err)
 	if res == nil {
 		res = p.errorResponse(req, err)
+	} else {
+		// The response was built for the transport's CONNECT request, bind it to the client's request.
+		res.Request = req
+		res.Proto, res.ProtoMajor, res.ProtoMinor = req.Proto, req.ProtoMajor, req.ProtoMinor
 	}
 	if err := p.modifyResponse(res); err != nil {
 		log.Error(req.Context(), "error modifying error response", "error", err)
